@@ -4,8 +4,8 @@
    (interceptors, checks, id interceptor: plain functions), arbitrary clock, and any strict total
    order on ids; they are instantiated with the flat algebra of Resource/Flat.v for the
    correspondence (C01_instance_* shows the hypotheses hold there). *)
-From SC Require Import Base.Prelude Resource.Impl Resource.Spec Resource.ImplProofs Resource.SpecProofs
-  Resource.Pull04Proofs Resource.Flat Resource.FlatProofs Resource.Judge Resource.Tween Resource.TweenProofs.
+From SC Require Import Base.Prelude Msg.Msg Resource.Impl Resource.Spec Resource.ImplProofs Resource.SpecProofs
+  Resource.Pull04Proofs Resource.Flat Resource.FlatProofs Resource.Judge Resource.JudgeProofs Resource.Tree Resource.TreeJudge Resource.TreeJudgeProofs Resource.Tween Resource.TweenProofs.
 
 Section C01.
   Variable M : Type.
@@ -103,6 +103,31 @@ Section C01.
     (forall chk, wo_check o = Some chk -> chk old = None).
   Proof. intros. eapply change_fn_success_needs_both; eauto. Qed.
 
+  (* a Value is a single register: a Set either fails (validation first, then the value
+     preconditions against the stored value) changing nothing and emitting nothing, or it stores
+     exactly the new value computed from the stored one, returns it, emits exactly one event
+     carrying it and the write's time, and the next Get returns it *)
+  Theorem C01_value_is_register : forall (s : vstate M) msg (o : wopts M writer) s' r ev,
+    spec_v_set m_eqb m_empty w_validate w_merge clock_at s msg o = (s', r, ev) ->
+    (exists code, r = inr code /\ s' = s /\ ev = [] /\
+       (w_validate (wo_writer o) = Some code \/
+        (w_validate (wo_writer o) = None /\ precondition m_eqb o (v_val s) = Some code))) \/
+    (exists nv t, r = inl nv /\ w_validate (wo_writer o) = None /\ precondition m_eqb o (v_val s) = None /\
+       nv = new_value m_empty w_merge o msg (v_val s) /\
+       t = match wo_time o with Some t0 => t0 | None => clock_at (v_reads s) end /\
+       ev = [mkVE nv t] /\ v_val s' = Some nv /\ v_time s' = t /\
+       v_get r_filter s' None = Some nv /\
+       (forall k, v_get r_filter s' (Some k) = Some (r_filter k nv))).
+  Proof.
+    intros s msg o s' r ev. unfold spec_v_set.
+    destruct (w_validate (wo_writer o)) as [c|] eqn:V.
+    { intros H. inversion H. subst. left. exists c. auto. }
+    destruct (precondition m_eqb o (v_val s)) as [c|] eqn:P.
+    { intros H. inversion H. subst. left. exists c. auto 6. }
+    unfold write_time. destruct (wo_time o) as [t0|]; intros H; inversion H; subst; right;
+      eexists _, _; repeat split; reflexivity.
+  Qed.
+
   (* NewCollection(WithInitialRecord ...): sorted contents holding exactly the given records, each
      stamped with the construction-time clock reading *)
   Theorem C01_initial_records : forall (records : list (string * M)),
@@ -112,11 +137,103 @@ Section C01.
        lookup id (c_items (c_new clock_at str_ltb records)) = Some (mkItem v (clock_at 0))) /\
     (forall id, ~ In id (map fst records) -> lookup id (c_items (c_new clock_at str_ltb records)) = None).
   Proof. intros. apply c_new_contents; assumption. Qed.
+
+  (* ... and how those records are addressed afterwards: Get looks up the id it is given THROUGH the
+     id interceptor, the constructor stored the ids as given.  A record is found exactly under the
+     ids the interceptor maps to its id; a record whose id is not in the interceptor's range (e.g.
+     "A" under strings.ToLower) is returned by no Get (notes/C01.md: observation, not a finding) *)
+  Theorem C01_initial_records_addressing : forall (records : list (string * M)) id0 mask,
+    NoDup (map fst records) ->
+    (forall v, In (apply_id idfun id0, v) records ->
+       c_get r_filter idfun (c_new clock_at str_ltb records) id0 mask =
+       Some (match mask with Some k => r_filter k v | None => v end)) /\
+    (~ In (apply_id idfun id0) (map fst records) ->
+       c_get r_filter idfun (c_new clock_at str_ltb records) id0 mask = None).
+  Proof.
+    intros records id0 mask N. destruct (C01_initial_records records N) as (_ & A & B). unfold c_get. split.
+    - intros v Hin. rewrite (A _ _ Hin). reflexivity.
+    - intros Hn. rewrite (B _ Hn). reflexivity.
+  Qed.
+
+  (* ... and usable afterwards: the reported id addresses the new item for Get, for Delete (every
+     Delete of it returns the written value, a successful one removes it) and for Update (it
+     resolves to the very key the item is stored under) *)
+  Theorem C01_generated_id_usable : forall s id0 msg (o : wopts M writer) cands s' nv ev cb,
+    spec_c_update s id0 msg o cands = (s', inl nv, ev, cb) ->
+    String.eqb (apply_id idfun id0) "" && wo_gen_id o = true ->
+    sorted str_ltb (c_items s) ->
+    exists g t, first_fresh idfun cands 10 (c_items s) = Some g /\
+      lookup (apply_id idfun g) (c_items s') = Some (mkItem nv t) /\
+      c_get r_filter idfun s' g None = Some nv /\
+      (forall (o2 : wopts M writer), exists s2 e ev2,
+         spec_c_delete s' g o2 = (s2, Some nv, e, ev2) /\
+         (e = None -> lookup (apply_id idfun g) (c_items s2) = None)) /\
+      (forall (o2 : wopts M writer) c2,
+         String.eqb (apply_id idfun g) "" && wo_gen_id o2 = false ->
+         resolves idfun s' g o2 c2 (apply_id idfun g) None).
+  Proof.
+    intros s id0 msg o cands s' nv ev cb H G S.
+    assert (S' : sorted str_ltb (c_items s')) by (eapply update_sorted; eauto).
+    apply update_outcomes in H.
+    destruct H as [(code & Hr & _)|(id & gen & nv' & t & Hr & Hres & Hl & _)]; [discriminate|].
+    inversion Hr. subst nv'. unfold resolves in Hres. rewrite G in Hres.
+    destruct Hres as (g & F & -> & ->). exists g, t. split; [exact F|]. split; [exact Hl|].
+    split; [unfold c_get; rewrite Hl; reflexivity|]. split.
+    - intros o2. destruct (spec_c_delete s' g o2) as [[[s2 r] e] ev2] eqn:D.
+      exists s2, e, ev2. pose proof D as D'. apply delete_outcomes in D'. simpl in D'. rewrite Hl in D'.
+      destruct D' as [(L & _)|[(it & c & L & -> & -> & -> & ->)|(it & t2 & L & -> & -> & E & _)]].
+      + discriminate.
+      + inversion L. subst it. simpl. split; [reflexivity|discriminate].
+      + inversion L. subst it. simpl. split; [reflexivity|]. intros _.
+        rewrite E. apply lookup_remove_same with (str_ltb := str_ltb); auto.
+    - intros o2 c2 C. unfold resolves. rewrite C. auto.
+  Qed.
+
+  (* Get and List tell the same story: on sorted contents (every reachable state) Get finds v under
+     id exactly when the full List has the entry (id through the interceptor, v) -- and List has at
+     most one entry per id *)
+  Lemma lookup_iff_in (l : list (string * item M)) : sorted str_ltb l ->
+    forall k it, lookup k l = Some it <-> In (k, it) l.
+  Proof.
+    induction l as [|[k0 x] r IH]; intros S k it; simpl.
+    - split; [discriminate|tauto].
+    - apply (sorted_cons str_ltb ltb_trans) in S. destruct S as [Hab S].
+      destruct (String.eqb_spec k0 k) as [->|Hk].
+      + split.
+        * intros H. inversion H. auto.
+        * intros [H|H]; [inversion H; reflexivity|]. exfalso.
+          assert (A : str_ltb k k = true) by (apply Hab; apply (in_map fst) in H; exact H).
+          rewrite ltb_irrefl in A. discriminate.
+      + rewrite (IH S). split; [auto|]. intros [H|H]; [inversion H; contradiction|exact H].
+  Qed.
+
+  Theorem C01_get_agrees_with_list : forall (s : cstate M) id v,
+    sorted str_ltb (c_items s) ->
+    (c_get r_filter idfun s id None = Some v <-> In (apply_id idfun id, v) (c_list r_filter s None None)) /\
+    (forall k v1 v2, In (k, v1) (c_list r_filter s None None) -> In (k, v2) (c_list r_filter s None None) -> v1 = v2).
+  Proof.
+    intros s id v S.
+    assert (L : forall k v, In (k, v) (c_list r_filter s None None) <-> exists t, In (k, mkItem v t) (c_items s)).
+    { intros k w. unfold c_list. simpl. rewrite in_map_iff. split.
+      - intros ([k' [b t]] & E & Hin). simpl in E. inversion E. subst. apply filter_In in Hin. exists t. tauto.
+      - intros (t & Hin). exists (k, mkItem w t). split; [reflexivity|]. apply filter_In. auto. }
+    split.
+    - rewrite L. unfold c_get. split.
+      + destruct (lookup (apply_id idfun id) (c_items s)) as [[b t]|] eqn:Q; [|discriminate].
+        intros H. inversion H. subst. exists t. apply lookup_iff_in; assumption.
+      + intros (t & Hin). apply (lookup_iff_in _ S) in Hin. rewrite Hin. reflexivity.
+    - intros k v1 v2 H1 H2. apply L in H1, H2. destruct H1 as (t1 & H1), H2 as (t2 & H2).
+      apply (lookup_iff_in _ S) in H1, H2. rewrite H1 in H2. inversion H2. reflexivity.
+  Qed.
 End C01.
 
 Print Assumptions C01_preconditions_all_consulted.
 Print Assumptions C01_change_fn_success_needs_both.
 Print Assumptions C01_initial_records.
+Print Assumptions C01_value_is_register.
+Print Assumptions C01_generated_id_usable.
+Print Assumptions C01_get_agrees_with_list.
+Print Assumptions C01_initial_records_addressing.
 Print Assumptions C01_collection_refines_reference.
 Print Assumptions C01_value_refines_reference.
 Print Assumptions C01_failed_call_is_noop.
@@ -169,10 +286,124 @@ Example C01_nonvacuous_both_preconditions :
   map fst (run (CEq Fa 1 7)) = [VRSet (inl (mkF 2 0 0)); VRGet (Some (mkF 2 0 0))].
 Proof. vm_compute. split; reflexivity. Qed.
 
+(* non-vacuity of the register theorem: both disjuncts occur (a Set refused by its expected value,
+   the same Set accepted once the value is there) *)
+Example C01_nonvacuous_value_register :
+  let o := mkFWO None None None None false (Some (mkF 1 0 0)) false None false None None false false false false in
+  let set s := spec_v_set fmsg_eqb fzero fw_validate fw_merge fclock s (mkF 2 0 0) (to_wopts None o) in
+  (let '(s', r, ev) := set (v_init fclock None) in r = inr 9 /\ s' = v_init fclock None /\ ev = []) /\
+  (let '(s', r, ev) := set (v_init fclock (Some (mkF 1 0 0))) in
+   r = inl (mkF 2 0 0) /\ v_get fr_filter s' None = Some (mkF 2 0 0) /\ ev = [mkVE (mkF 2 0 0) 1010]).
+Proof. vm_compute. auto. Qed.
+
 Example C01_nonvacuous_initial_records :
   c_list fr_filter (c_new fclock str_ltb [("b"%string, mkF 2 0 0); ("a"%string, mkF 1 0 0)]) None None =
   [("a"%string, mkF 1 0 0); ("b"%string, mkF 2 0 0)].
 Proof. vm_compute. reflexivity. Qed.
+
+(* soundness of the judge of the correspondence (flat algebra; Resource/JudgeProofs.v): whatever the
+   call sequence, an observation that agrees with the code-shaped model satisfies EVERY clause of
+   [C01_ok] -- the comparison with the plain reference (by the refinement theorem), the direct
+   clauses on the observed trace (every List sorted by id; a failed write leaves the next full List
+   equal to the previous one) and the generated-id clauses (non-empty, reported exactly once, not a
+   key of the last full List seen through the id interceptor, found by the following Get).  So a
+   verdict "predicate fails" always comes with "model disagrees": the clauses of the judge are
+   consequences of the model, for every sequence and every observation, not facts about the sampled
+   cases.  [C01_guard] (no Delete between the caller's last full List and a write that may generate
+   an id: the generators list after every write) is needed for the "not a key of the last List"
+   clause only; [C01_judge_guard_needed] is the agreeing observation that clause rejects without it. *)
+Theorem C01_judge_sound : forall c, agrees c = true -> C01_guard c = true -> C01_ok c = true.
+Proof. exact judge01_sound. Qed.
+Print Assumptions C01_judge_sound.
+
+(* the two families of direct clauses on their own, for an arbitrary start state of the run *)
+Theorem C01_judge_direct_clauses : forall i w steps s s' outs last dirty,
+  run (f_spec_step i) s (map (to_cop w) (map fst steps)) = (s', outs) ->
+  trace_matches outs (map snd steps) = true ->
+  sorted str_ltb (c_items s) ->
+  (dirty = false -> forall l0, last = Some l0 -> l0 = c_list fr_filter s None None) ->
+  direct_ok last dirty steps = true.
+Proof. exact direct_ok_sound. Qed.
+Print Assumptions C01_judge_direct_clauses.
+
+Theorem C01_judge_generated_id_clauses : forall i w steps s s' outs last stale,
+  run (f_spec_step i) s (map (to_cop w) (map fst steps)) = (s', outs) ->
+  trace_matches outs (map snd steps) = true ->
+  gen_guard stale steps = true ->
+  (stale = false -> forall k, In k (map fst last) -> lookup k (c_items s) <> None) ->
+  gen_ok i last steps = true.
+Proof. exact gen_ok_sound. Qed.
+Print Assumptions C01_judge_generated_id_clauses.
+
+Example C01_judge_guard_needed :
+  agrees guard_witness = true /\ C01_guard guard_witness = false /\ C01_ok guard_witness = false.
+Proof. exact guard_witness_facts. Qed.
+
+(* non-vacuity: an agreeing, guarded observation with a generated id (probed by Get), a failed write
+   between two full Lists, a Delete and a second generation of the same id after a fresh List *)
+Example C01_judge_sound_nonvacuous :
+  agrees sound_witness = true /\ C01_guard sound_witness = true /\ C01_ok sound_witness = true /\
+  judge01 sound_witness = 0.
+Proof. vm_compute. auto. Qed.
+
+(* the converse and the resulting exactness of the verdict: on the two case kinds of C01 (collection
+   and value sequences) "the model agrees" and "the predicate holds" are the same boolean, so the
+   judge answers 0 or 3 -- never 1 (mismatch only) or 2 (predicate fails though the model agrees) *)
+Theorem C01_judge_exact : forall c, C01_guard c = true ->
+  match c with
+  | CaseC _ _ _ | CaseV _ _ _ => agrees c = C01_ok c /\ (judge01 c = 0 \/ judge01 c = 3)
+  | _ => C01_ok c = true
+  end.
+Proof. exact judge01_exact. Qed.
+Print Assumptions C01_judge_exact.
+
+(* full-message cases (Resource/TreeJudge.v): the sortedness clause of [C01T_ok] follows from its
+   reference clause, for every call sequence over a collection constructed with initial records
+   (distinct ids; [records = []] is the empty collection of TCaseC) *)
+Theorem C01_tree_lists_sorted_clause : forall i ty resw records steps s' outs,
+  NoDup (map fst records) ->
+  run (t_spec_step i) (c_new fclock str_ltb records) (map (to_tcop ty resw) (map fst steps)) = (s', outs) ->
+  ttrace outs (map snd steps) = true ->
+  t_lists_sorted steps = true.
+Proof. exact t_lists_sorted_records. Qed.
+Print Assumptions C01_tree_lists_sorted_clause.
+
+Example C01_tree_lists_sorted_nonvacuous :
+  let records := [("b"%string, vempty); ("a"%string, vempty)] in
+  let steps := [(TList None, UList [("a"%string, vempty); ("b"%string, vempty)])] in
+  NoDup (map fst records) /\
+  ttrace (snd (run (t_spec_step None) (c_new fclock str_ltb records) (map (to_tcop "x" None) (map fst steps))))
+         (map snd steps) = true /\
+  C01T_ok (TCaseCR "x" None None records steps) = true /\
+  t_lists_sorted [(TList None, UList [("b"%string, vempty); ("a"%string, vempty)])] = false.
+Proof.
+  split; [repeat constructor; simpl; intuition discriminate|]. vm_compute. auto.
+Qed.
+
+(* non-vacuity: the record stored as "A" is not found under "A" nor "a" with the lower-case
+   interceptor, the record stored as "b" is *)
+Example C01_nonvacuous_initial_records_addressing :
+  let s := c_new fclock str_ltb [("A"%string, mkF 1 0 0); ("b"%string, mkF 2 0 0)] in
+  c_get fr_filter (Some lower) s "A" None = None /\ c_get fr_filter (Some lower) s "a" None = None /\
+  c_get fr_filter (Some lower) s "B" None = Some (mkF 2 0 0).
+Proof. vm_compute. auto. Qed.
+
+Example C01_nonvacuous_generated_id_usable :
+  let o := mkFWO None None None None false None false None false None None true false true true in
+  let '(s', r, _, cb) := spec_c_update fmsg_eqb fzero fw_validate fw_merge fclock str_ltb (Some lower)
+                           (mkC [] 0) "" (mkF 1 0 0) (to_wopts None o) ["AbC"%string] in
+  cb_ids cb = ["AbC"%string] /\ r = inl (mkF 1 0 0) /\
+  c_get fr_filter (Some lower) s' "AbC" None = Some (mkF 1 0 0) /\
+  let '(s2, body, e, _) := spec_c_delete fmsg_eqb fclock (Some lower) s' "AbC" (to_wopts None o) in
+  body = Some (mkF 1 0 0) /\ e = None /\ c_items s2 = [].
+Proof. vm_compute. auto 10. Qed.
+
+Example C01_nonvacuous_get_agrees_with_list :
+  let s := c_new fclock str_ltb [("b"%string, mkF 2 0 0); ("a"%string, mkF 1 0 0)] in
+  c_get fr_filter (Some lower) s "A" None = Some (mkF 1 0 0) /\
+  In ("a"%string, mkF 1 0 0) (c_list fr_filter s None None) /\
+  c_get fr_filter (Some lower) s "c" None = None.
+Proof. vm_compute. auto. Qed.
 
 (* auxiliary (outside the statement of C01, see notes/C01.md): pkg/resource/tween.go's update
    validation, the remaining pure function of the package, accepts exactly "no tween, or zero
